@@ -29,6 +29,11 @@ Definition dec_uint (k : nat) : dec N := dmap le2n (read_n k).     (* read_exact
 Definition enc_uint (k : nat) (n : N) : bytes := n2le k n.
 Definition dec_u16 := dec_uint 2.  Definition dec_u32 := dec_uint 4.  Definition dec_u64 := dec_uint 8.
 
+(* signed integers travel as their two's-complement bit pattern (the model keeps the unsigned pattern);
+   bool: read_i8 != 0 on input, `v as u8` on output *)
+Definition dec_bool : dec bool := dmap (fun n => negb (n =? 0)) dec_u8.
+Definition enc_bool (b : bool) : bytes := enc_u8 (if b then 1 else 0).
+
 (* fixed arrays of bytes: [u8; N] decodes element-wise through u8 *)
 Definition dec_arr (k : nat) : dec bytes := read_n k.
 Definition enc_arr (b : bytes) : bytes := b.
